@@ -507,6 +507,19 @@ def install(pack):
     m["builtin:str"] = m_str
     m["builtin:list"] = m_list
     m["builtin:tuple"] = m_tuple
+
+    def m_set(interp, args, kwargs):
+        # set() / frozenset(): only the empty set and sets of concrete members (sets are immutable values here: .add is not modelled)
+        if not args:
+            return frozenset()
+        src = args[0]
+        items = list(src) if isinstance(src, (tuple, frozenset)) else list(src.items) if isinstance(src, PyList) else None
+        if items is None or not all(is_concrete(x) for x in items):
+            raise Unsupported("set() of %r" % (src,))
+        return frozenset(items)
+
+    m["builtin:set"] = m_set
+    m["builtin:frozenset"] = m_set
     m["builtin:dict"] = m_dict
     m["builtin:range"] = m_range
     m["builtin:enumerate"] = m_enumerate
@@ -611,7 +624,7 @@ def container_method(pack, interp, recv, name, args, kwargs, node):
             return None
         if name == "__setitem__":
             k = args[0]
-            if not is_concrete(k):
+            if not is_concrete(k) and not isinstance(k, Opaque):  # (an opaque object is a key by identity, like any Python object without __eq__)
                 raise Unsupported("symbolic key stored into a concrete-shaped dict")
             d[k] = args[1]
             return None
